@@ -793,17 +793,29 @@ class Model(Object):
                 forward = reaction.forward_variable
                 reverse = reaction.reverse_variable
 
-                if context:
-                    obj_coef = reaction.objective_coefficient
+                obj_coef = reaction.objective_coefficient
+                if obj_coef != 0:
+                    if context:
 
-                    if obj_coef != 0:
-                        context(
-                            partial(
-                                self.solver.objective.set_linear_coefficients,
-                                {forward: obj_coef, reverse: -obj_coef},
+                        def restore_objective_coefficient(
+                            reaction=reaction, obj_coef=obj_coef
+                        ):
+                            # look the objective and the variables up when the
+                            # removal is undone: both may have been replaced
+                            self.solver.objective.set_linear_coefficients(
+                                {
+                                    reaction.forward_variable: obj_coef,
+                                    reaction.reverse_variable: -obj_coef,
+                                }
                             )
-                        )
 
+                        context(restore_objective_coefficient)
+                    # take the reaction out of the objective before its variables
+                    # go, otherwise the objective keeps referring to them
+                    self.solver.objective.set_linear_coefficients(
+                        {forward: 0, reverse: 0}
+                    )
+                if context:
                     context(partial(self._populate_solver, [reaction]))
                     context(partial(setattr, reaction, "_model", self))
                     context(partial(self.reactions.add, reaction))
